@@ -4,7 +4,7 @@
 From Coq Require Import List NArith ZArith QArith Bool Arith Lia Permutation.
 Import ListNotations.
 From FP Require Import Lin Blocks BlocksProofs PathEnc PathEncProofs Euler EulerProofs1 EulerProofs4 WalkDecode
-                       SatCheck WalkEncRows WalkEncRowsProofs WalkExamples.
+                       SatCheck WalkEncRows WalkEncRowsProofs WalkExamples WalkSearch WalkTree WalkEncComplete WalkEncIff WalkCoverIff WalkChecked.
 Local Close Scope Q_scope.
 
 (* C01 (cyclic): the rows 17a 17b 21 22a 19c with the columns' bounds and integrality force every layer's
@@ -28,6 +28,51 @@ Theorem C09_kpcc_layer_is_one_walk : forall (I : kpcc_inst) (a : var -> Q) i,
 Proof. exact kpcc_layer_is_one_walk. Qed.
 Print Assumptions C09_kpcc_layer_is_one_walk.
 
+(* C09 (cyclic), completeness within the caps of the model: k source-to-sink walks that cover the non-ignored edges, stay
+   within the repetition caps (|E*| * |V*| inside SCCs, 1 outside), respect the safety fixing and realise the subset
+   constraints extend to a satisfying assignment of kPathCoverCycles' LP (Sel / Dist from the first-visit spanning tree) *)
+Theorem C09_admissible_walk_cover_satisfies_the_lp : forall (I : kpcc_inst) (P : N -> list node),
+  wf_stg (pc_graph I) -> cover_admissible I P -> exists a, sat a (encode_kpcc I).
+Proof. exact kpcc_complete_admissible. Qed.
+Print Assumptions C09_admissible_walk_cover_satisfies_the_lp.
+
+Theorem C09_walk_cover_lp_feasible_iff_admissible_cover : forall (I : kpcc_inst),
+  wf_stg (pc_graph I) -> o_allow_empty (pc_opts I) = false -> winputs_ok (kpcc_walk I) ->
+  ((exists a, sat a (encode_kpcc I)) <-> (exists P, cover_admissible I P)).
+Proof. exact kpcc_feasible_iff_within_caps. Qed.
+Print Assumptions C09_walk_cover_lp_feasible_iff_admissible_cover.
+
+Theorem C09_walk_cover_lp_feasible_iff_admissible_cover_checked : forall (I : kpcc_inst),
+  wf_stg_b (pc_graph I) = true -> winputs_ok_b (kpcc_walk I) = true -> o_allow_empty (pc_opts I) = false ->
+  ((exists a, sat a (encode_kpcc I)) <-> (exists P, cover_admissible I P)).
+Proof. exact kpcc_feasible_iff_checked. Qed.
+Print Assumptions C09_walk_cover_lp_feasible_iff_admissible_cover_checked.
+
+(* MinPathCoverCycles returns the least number of walks of an admissible cover (relative to the solver specification) *)
+Theorem C09_minpathcovercycles_returns_minimum_within_caps : forall (inst : nat -> kpcc_inst) (out : nat -> outcome) (lb nE kmin : nat),
+  (forall j, pc_k (inst j) = j /\ wf_stg (pc_graph (inst j)) /\ o_allow_empty (pc_opts (inst j)) = false /\ winputs_ok (kpcc_walk (inst j))) ->
+  (forall j, out j = Optimal <-> exists a, sat a (encode_kpcc (inst j))) ->
+  (forall j, out j = Infeasible <-> ~ exists a, sat a (encode_kpcc (inst j))) ->
+  (exists P, cover_admissible (inst kmin) P) ->
+  (forall j, (j < kmin)%nat -> ~ exists P, cover_admissible (inst j) P) ->
+  (lb <= kmin <= nE)%nat ->
+  mfdc_solve out (fun _ => false) None lb nE = Solved kmin.
+Proof. exact mpcc_returns_minimum_within_caps. Qed.
+Print Assumptions C09_minpathcovercycles_returns_minimum_within_caps.
+
+(* non-vacuity: the walk source x x sink is an admissible cover of the self-loop instance *)
+Example C09_walk_cover_complete_nonvacuous :
+  cover_admissible loop_kpcc (fun _ => [1; 0; 0; 2]%N) /\ exists a, sat a (encode_kpcc loop_kpcc).
+Proof.
+  assert (H : cover_admissible loop_kpcc (fun _ => [1; 0; 0; 2]%N)).
+  { split; [|split; [|split; [|split]]].
+    - intros i _. split; [reflexivity|]. split; [reflexivity|]. intros e He. cbn in He. cbn. tauto.
+    - intros e He _. exists 0%N. split; [left; reflexivity|]. cbn in He. destruct He as [<-|[<-|[<-|[]]]]; vm_compute; discriminate.
+    - intros i e _ He. cbn in He. destruct He as [<-|[<-|[<-|[]]]]; vm_compute; discriminate.
+    - split; [intros e i H|intros e i m H]; vm_compute in H; destruct H.
+    - intros j c H. cbn in H. destruct j; discriminate. }
+  split; [exact H|]. apply (kpcc_complete_admissible loop_kpcc _ loopG_wf H).
+Qed.
 
 (* non-vacuity: the premises are satisfiable (self-loop instance, solved with one walk going round once) *)
 Example C09_walk_premises_satisfiable :
